@@ -12,6 +12,7 @@ CONSTANTS
   MFS0 = 2
   MAXS = 2
   SidsUsed = @SIDS@
+  ESs = {TRUE, FALSE}
   CKinds = {"HEADERS", "DATA", "RST"}
   Reqs = {"post"}
   Trailers = {"trailers"}
